@@ -429,13 +429,19 @@ func (a *oauth2IntrospectionAuthenticator) getCacheTTL(introspectResp *oauth2.In
 	// we cache by default using the settings in the introspection response (if available)
 	// or if ttl has been configured. Latter overwrites the settings in the introspection response
 	// if it is shorter than the ttl in the introspection response
-	introspectionResponseTTL := x.IfThenElseExec(introspectResp.Expiry != nil,
-		func() time.Duration {
-			expiresIn := introspectResp.Expiry.Time().Unix() - time.Now().Unix() - timeLeeway
+	var introspectionResponseTTL time.Duration
 
-			return x.IfThenElse(expiresIn > 0, time.Duration(expiresIn)*time.Second, 0)
-		},
-		func() time.Duration { return 0 })
+	if introspectResp.Expiry != nil {
+		expiresIn := introspectResp.Expiry.Time().Unix() - time.Now().Unix() - timeLeeway
+		if expiresIn <= 0 {
+			// the token expires too soon (or is accepted due to the validity leeway only) to be cached.
+			// Not to be confused with the absence of the expiry information, in which case the
+			// configured ttl is used
+			return 0
+		}
+
+		introspectionResponseTTL = time.Duration(expiresIn) * time.Second
+	}
 
 	configuredTTL := x.IfThenElseExec(a.ttl != nil,
 		func() time.Duration { return *a.ttl },
